@@ -5,8 +5,6 @@
 pub mod probe;
 #[allow(warnings)]
 mod shapes_gen;
-mod vecops;
-mod flexops;
 mod io_suite;
 mod portable_suite;
 
@@ -70,8 +68,30 @@ fn main() {
                     },
                 }
             }
-            "HV" => vecops::run(&toks[2..]),
-            "HF" => flexops::run(&toks[2..]),
+            "H" => {
+                // H <cid> <shape> <off> <hex> | <init> | <op> | <op> ...
+                match shapes_gen::ops(toks[2]) {
+                    None => format!("HARNESS-ERROR unknown shape {}", toks[2]),
+                    Some(o) => {
+                        let off: usize = toks[3].parse().unwrap();
+                        let bytes = hex_to_bytes(toks[4]);
+                        let rest = toks[5..].join(" ");
+                        let parts: Vec<&str> = rest.split('|').map(|s| s.trim()).filter(|s| !s.is_empty()).collect();
+                        let st = tokenize(parts[0]);
+                        let mut p = 0;
+                        let init = parse_spec(&st, &mut p);
+                        let ops: Vec<HOp> = parts[1..]
+                            .iter()
+                            .map(|t| {
+                                let st = tokenize(t);
+                                let mut p = 0;
+                                parse_hop(&st, &mut p)
+                            })
+                            .collect();
+                        o.hist(off, &bytes, &init, &ops)
+                    }
+                }
+            }
             "IO" => {
                 if toks.len() < 4 {
                     "HARNESS-ERROR IO needs a kind and a shape".to_string()
